@@ -12,6 +12,9 @@ Streams (model `Wpull.Request` vs the real code in the repo under test):
            the URL as seen at the URL table (requests per visit, status and try_count checked in) vs the model
            and across option combinations of the application wiring (--hostnames, --exclude-hostnames, --domains, -I/-X,
            --accept/--reject[-regex], --no-parent, --span-hosts, --level, --page-requisites-level, …: attempts == tries whatever is set)
+  site     oracle only: a small site answered by path, recursive with page requisites (a failing URL found as a link and again as
+           a requisite) and with scripting hooks connected (handle_pre_response / handle_response / handle_error answering RETRY
+           or FINISH): requests to a failing URL == tries, try_count +1 per visit, the crawl ends
   multi    oracle only: several start URLs of one host, 2-3 workers (PipelineSeries.concurrency), robots.txt honoured and failing
            (5xx, reset, slow then failing): the crawl ends, attempts == tries per URL
   restart  the real application on a persistent --database against always-failing pages; runs die in a forked child while an
@@ -285,6 +288,48 @@ def check_multi(ctx, case):
     ctx.sample({'stream': 'multi', 'name': case['name'], 'workers': workers, 'tries': tries, 'visits': trace[:200]})
 
 
+def per_url_visits(res):
+    per, start = {}, {}
+    for ev in res['events']:
+        if ev[0] == 'out':
+            start[ev[1]] = ev
+        elif ev[0] == 'in' and ev[1] in start:
+            per.setdefault(ev[1], []).append((start.pop(ev[1])[3], ev[2], ev[3]))
+    return per, start
+
+
+def check_site(ctx, case):
+    """Oracle only: a small site (answers by path), recursive crawl with page requisites and/or scripting hooks: per URL
+    the visits at the URL table and the requests per path."""
+    tries = case['tries']
+    res = rc.run_crawl(case['url'], [], tries, 2, by_path=case['site'], recursive=True, extra_argv=case.get('options') or (),
+                       hooks=case.get('hooks'), cap=case.get('cap', 40), req_cap=case.get('req_cap', 120), timeout=10)
+    per, start = per_url_visits(res)
+    paths = {}
+    for h in res['hops']:
+        pth = h[2].split(b' ')[1].decode('latin-1')
+        paths[pth] = paths.get(pth, 0) + 1
+    trace = '; '.join('%s: %s' % (u.rsplit('/', 1)[-1] or '/', ','.join('%d>%s:%d' % v for v in vs)) for u, vs in sorted(per.items()))
+    ctx.case(('site', repr(case)), tags=['site:' + case['name'], 'site:tries=%d' % tries])
+    if res['hung'] or res['capped']:
+        ctx.fail('crawl-never-ends', 'Application.run', case, 'the crawl did not end (%s): requests per path %r; visits %s'
+                 % ('cap' if res['capped'] else 'blocked', paths, trace[:500]))
+        return
+    for u, vs in per.items():
+        if any(b != a + 1 for a, _, b in vs):
+            ctx.fail('try-count-increment', 'ItemSession', case, 'visits of %s: %r' % (u, vs))
+        if len(vs) > tries + 1:
+            ctx.fail('too-many-visits', 'URLItemSource', case, '%d check-outs of %s with tries=%d (%s)' % (len(vs), u, tries, trace[:300]))
+        if vs[-1][1] in ('todo', 'error', 'in_progress'):
+            ctx.fail('left-unfinished', 'URLItemSource', case, '%s ended in status %s' % (u, vs[-1][1]))
+    for pth in case.get('failing', ()):
+        if paths.get(pth, 0) != tries:
+            ctx.fail('attempts-not-tries', 'URLTable.add_many' if paths.get(pth, 0) > tries else 'WebProcessorSession', case,
+                     'the always-failing %s was requested %d times with tries=%d (requests per path %r; visits %s)'
+                     % (pth, paths.get(pth, 0), tries, paths, trace[:400]))
+    ctx.sample({'stream': 'site', 'name': case['name'], 'tries': tries, 'paths': paths})
+
+
 def wpull_norm(u):
     from wpull.url import URLInfo
     return URLInfo.parse(u).url
@@ -381,6 +426,8 @@ def replay(ctx, case, kind=None, where=None):
         check_restart(ctx, case)
     elif s == 'multi':
         check_multi(ctx, case)
+    elif s == 'site':
+        check_site(ctx, case)
     else:
         raise Infra('unknown replay stream %r' % s)
 
@@ -456,6 +503,23 @@ def run(ctx):
         for host_fail, retry in (('refused', '--retry-connrefused'), ('dns', '--retry-dns-error')):
             check_crawl(ctx, {'stream': 'crawl', 'name': 'host-' + host_fail, 'url': 'http://a.example/x', 'replies': [], 'tries': tries,
                               'max_redirects': 1, 'login': None, 'host_fail': host_fail, 'retry': retry})
+    # a failing URL that is discovered twice — as a plain link first, as a page requisite later (and the other way round):
+    # the second discovery must not hand the tries budget back; scripting hooks that ask for RETRY must cost a try as well
+    html = lambda *links: dict(rep(200), body=('<html><body>' + ' '.join(links) + '</body></html>').encode(), extra=[b'Content-Type: text/html'])
+    a = lambda p: '<a href="%s">x</a>' % p
+    img = lambda p: '<img src="%s">' % p
+    for tries in ((1, 2, 3) if thorough else (2,)):
+        for name, site in (
+                ('link-then-requisite', {'/': html(a('/bad'), a('/page2')), '/page2': html(img('/bad'), '<iframe src="/bad"></iframe>'), '/bad': rep(500)}),
+                ('requisite-then-link', {'/': html(img('/bad'), a('/page2')), '/page2': html(a('/bad')), '/bad': rep(503)}),
+                ('link-twice', {'/': html(a('/bad'), a('/page2')), '/page2': html(a('/bad'), a('/page3')), '/page3': html(img('/bad')), '/bad': rep(500)})):
+            check_site(ctx, {'stream': 'site', 'name': name, 'url': 'http://a.example/', 'site': site, 'tries': tries,
+                             'options': ['--page-requisites'], 'failing': ['/bad']})
+        for hname, action, st in (('handle_pre_response', 'RETRY', 200), ('handle_pre_response', 'RETRY', 500), ('handle_response', 'RETRY', 200),
+                                  ('handle_error', 'RETRY', None), ('handle_pre_response', 'FINISH', 500), ('handle_response', 'FINISH', 500)):
+            site = {'/': rep(st) if st else {'status': 0, 'mode': 'close'}}
+            check_site(ctx, {'stream': 'site', 'name': 'hook-%s-%s-%s' % (hname, action, st), 'url': 'http://a.example/', 'site': site,
+                             'tries': tries, 'hooks': {hname: action}, 'cap': tries + 5})
     # several items of one host in flight at once (2-3 workers), robots.txt not yet in the pool and failing
     slow = lambda r, n: dict(r, delay=n)
     multi_robots = {
